@@ -540,9 +540,12 @@ func (c *cache) get(nocache bool, ctx context.Context, url string, start, limit 
 		c.segments[key{start, limit}] = seg
 	}
 	c.pruneSegments()
-	c.Unlock()
-
+	// The segment lock is taken before the cache lock is released so
+	// that the read is counted before another caller can look up the
+	// same segment; otherwise concurrent callers can be served more
+	// than maxreads times from a single fetch.
 	seg.Lock()
+	c.Unlock()
 	defer seg.Unlock()
 	seg.nreads++
 	if seg.done {
